@@ -381,6 +381,24 @@ def s1_zeroize():
         yield 'zeroize/crate_%s/same_bounds_dup' % ctag, st('S', named(1, [['T']]), [dw([zmeta('Zeroize', c), 'Zeroize'])])
 
 
+def s0_known():
+    """witnesses of the open known findings (known_findings.json) and of the repaired defects"""
+    yield 'known/F4', en('E', [variant('A', 'Unnamed', unnamed(1, [['T']])), variant('B')], [repr_attr('u8'), dw(['PartialOrd'])])
+    yield 'known/F6', en('E', [variant('A', 'Unnamed', [], disc=(['3'], 3)), variant('B', 'Unit', [], [sub('incomparable')]), variant('C')], [repr_attr('u8'), dw(['PartialOrd', 'Clone', 'PartialEq'])])
+    yield 'known/F8', st('S', named(1, [['::', 'core', '::', 'marker', '::', 'PhantomData', '<', '__H', '>']]), [dw(['Hash'])], gen=generics([tparam('__H')]))
+    yield 'known/F9', st('S', unnamed(1, [['T']]), [dw(['PartialEq'])], 'Unnamed')
+    # fixed: F1 raw type / variant names in Debug, F10 field-less braced item with skip_inner(Debug)
+    yield 'known/F1', en('r#type', [variant('r#fn', 'Unnamed', unnamed(1, [['T']])), variant('r#match', 'Named', named(1, [['T']])), variant('r#loop')], [dw(['Debug'])])
+    yield 'known/F1s', st('r#struct', unnamed(1, [['T']]), [dw(['Debug'])], 'Unnamed')
+    yield 'known/F10', item(('Struct', 'Named', []), 'S', [dw(['Debug', 'PartialEq']), dw(['incomparable']), dw([skip_meta('skip_inner', ['Debug'])])], generics([]))
+    # fixed: F3 mixed bound list with the shortcut pairs
+    g2 = generics([tparam('T'), tparam('U')])
+    yield 'known/F3a', st('S', named(2, [['T'], ['U']]), [dw(['Clone', 'Copy'], ['T', ('Pred', ['U', ':', 'Tr'])])], gen=g2)
+    yield 'known/F3b', en('E', [variant('A', 'Unnamed', unnamed(1, [['T']])), variant('B', 'Unnamed', unnamed(1, [['U']]))], [dw(['Ord', 'PartialOrd', 'Eq', 'PartialEq'], ['T', ('Pred', ['U', ':', 'Tr'])])], gen=g2)
+    # fixed: F7 same trait, same bounds, non-adjacent attributes
+    yield 'known/F7', st('S', named(2, [['T'], ['U']]), [dw(['Clone'], ['T']), dw(['Debug'], ['U']), dw(['Clone'], ['T'])], gen=g2)
+
+
 def s1_stage_a():
     """the attribute macro: `crate` option, visited marker, printing of the whole item"""
     f2 = named(2, [['T'], ['u8']])
@@ -415,7 +433,7 @@ def s1_stage_a():
 
 
 def s1_all():
-    gens = [s1_stage_a, s1_basic, s1_bounds, s1_attr_split, s1_skip, s1_incomparable, s1_discriminant, s1_default, s1_names, s1_zeroize]
+    gens = [s0_known, s1_stage_a, s1_basic, s1_bounds, s1_attr_split, s1_skip, s1_incomparable, s1_discriminant, s1_default, s1_names, s1_zeroize]
     for g in gens:
         for x in g():
             yield x
